@@ -15,7 +15,7 @@ An entry describes one public method that returns a ProofThunk:
   concl    f(v) -> O1 term: the advertised conclusion
   ndefault how many trailing pattern arguments may be omitted (their defaults are phi0, phi1, phi2 by position)
   draw     optional f(G) -> V: draws the variables when they are not independent arbitrary patterns
-           (G: generator interface with .rng, .term(), .terms(n), .sf_meta(), .plug())
+           (G: generator interface with .rng, .term(), .small(), .terms(n) [n small terms], .sf_meta(), .plug())
   ret      index into the returned tuple when the method returns (x, proof) instead of a proof
   derive   optional f(actual positional args, E) -> V | None: recovers the variables from the arguments of an
            observed call (E: repo pattern -> O1 term); None = the call is outside the advertised domain.
@@ -304,7 +304,7 @@ def _draw_reduce_n(G):
     rest = G.terms(G.rng.choice((0, 1, 1, 2)))
     if n == 0 and not rest:
         rest = G.terms(1)
-    p = G.term()
+    p = G.small()
     if n == 0 and G.rng.random() < 0.5:
         return V(n=0, ts=rest)
     return V(n=n, ts=[p] * (n + 1) + rest)
@@ -317,7 +317,7 @@ entry('reduce_n_or_duplicates_at_front', TA, (), [('int', lambda v: v.n), ('pats
 
 def _draw_merge(G):
     k = G.rng.choice((1, 2, 2, 3, 4))
-    return V(ls=G.terms(k), r=G.term())
+    return V(ls=G.terms(k), r=G.small())
 
 
 entry('merge_clauses', TA, (), [('pat', lambda v: foldr(or_, v.ls)), ('int', lambda v: len(v.ls)), ('pat', lambda v: v.r)],
